@@ -102,7 +102,7 @@ static void oneTree(int t) {
             if (matter.isUsingQuaternion(s, bx)) { int q0 = mb.getFirstQIndex(s); Vec4 e(q[q0],q[q0+1],q[q0+2],q[q0+3]); if (e.norm() < 0.1) e = Vec4(1,0,0,0); e = e/e.norm();
                 for (int i=0;i<4;++i) s.updQ()[q0+i] = e[i]; } } }
     for (int i = 0; i < nu; ++i) s.updU()[i] = 1.5*rnd();
-    system.realize(s, Stage::Velocity);
+    system.realize(s, Stage::Dynamics);
     Vector f(nu), ustar(nu), v(nu);
     Vector_<SpatialVec> F(nb);
     for (int i = 0; i < nu; ++i) { f[i] = 3*rnd(); ustar[i] = 2*rnd(); v[i] = 2*rnd(); }
@@ -175,7 +175,6 @@ static void oneTree(int t) {
     }
     if (want("POWER") || want("ACC")) {
         // central finite difference along the forward-dynamics solution
-        system.realize(s, Stage::Velocity);
         Vector qdot = s.getQDot();
         const Real h = 1e-5;
         State sp = s, sm = s;
